@@ -730,6 +730,24 @@ class Lib:
             return self.b_len(I, [I.lift_instance(x)], k, n)
         if x is None or isinstance(x, (SV, int, float)):
             I.fail("TypeError", f"object of type {type(x).__name__} has no len()", n)
+        if isinstance(x, LibObj) and x.kind == "symset":
+            # number of distinct members: decide each member against the representatives kept so far (one path per
+            # pattern of equalities; sets of symbolic scalars are small)
+            members = x.fields["items"]
+            if len(members) > 6:
+                raise Unsupported("len() of a set of more than 6 symbolic scalars")
+            reps = []
+            for it in members:
+                dup = False
+                for r in reps:
+                    t = I.sym_bool(I.eq(it, r, n))
+                    t = t if isinstance(t, bool) else (True if I.ctx.entails(t) else False if I.ctx.entails(z3.Not(t)) else I.ctx.branch(t))
+                    if t:
+                        dup = True
+                        break
+                if not dup:
+                    reps.append(it)
+            return len(reps)
         if isinstance(x, LibObj):
             raise Unsupported(f"len() of a modelled {x.kind} object")
         try:
